@@ -1949,6 +1949,20 @@ class Interp:
             return
         self.lift_raises(eff, idx, n)
         yields = [e for e in eff if e[0] == "yield"]
+        nested_y = [e for e in eff if e[0] == "nested" and e[1][0] == "yield"]
+        if nested_y:
+            # a generator with two nested loops, one yield per inner iteration: the yielded sequence is the row-major
+            # flattening of cell(i, j); it is kept as a two-level value (Flat2Seq), no div/mod reasoning
+            if yields or len(nested_y) != 1:
+                raise Unsupported("generator with several yields in nested loops")
+            _, (_, v, gi), jdx, m, go = nested_y[0]
+            if not (z3.is_true(z3.simplify(gi)) and z3.is_true(z3.simplify(go))):
+                raise Unsupported("conditional yield in nested loops")
+            mz = to_int(m)
+            if not z3.eq(z3.substitute(mz, (idx, idx + 1)), mz):
+                raise Unsupported("inner loop length depends on the outer index")
+            self.gen_frame().yields.append(Flat2Seq(n, mz, lambda i, j, t=v: subst(t, [(idx, to_int(i)), (jdx, to_int(j))])))
+            eff = [e for e in eff if e is not nested_y[0]]
         others = [e for e in eff if e[0] not in ("yield", "raise")]
         if yields:
             if len(yields) != 1 or not z3.is_true(z3.simplify(yields[0][2])):
@@ -2008,6 +2022,18 @@ class Interp:
             else:
                 merged[k] = merge_values(c, a, b)
         fr.locals = merged
+
+
+class Flat2Seq(SSeq):
+    """Row-major flattening of cell(i, j), 0 <= i < rows, 0 <= j < cols (the yields of two nested loops)."""
+
+    def __init__(self, rows, cols, cell):
+        self.rows, self.cols, self.cell = rows, cols, cell
+        super().__init__(wrap(z3.simplify(to_int(rows) * to_int(cols))), self._flat, "nested-loop-yield")
+        self.pvc_type = "list"
+
+    def _flat(self, q):
+        raise Unsupported("flat index into a nested-loop sequence (use .cell(i, j))")
 
 
 class _MergeStop(Exception):
